@@ -22,7 +22,7 @@ RULE = (
     "order must be preserved; operands outside the listed forms are UNSPEC (counted, only count/order checked). Checked on the stream record and on parse_line. "
     "Non-trivial: an instruction with >= 1 memory operand or >= 2 operands whose operands are all inside the listed forms; distinct by instruction text."
 )
-ASSUMPTIONS = ["forms outside the statement's list (segment overrides, *, masks, %st(n), vector registers, two-component memory) are UNSPEC", "objdump 2.40 as input source for the real routes"]
+ASSUMPTIONS = ["an instruction printed with prefix words (lock, rep*, bnd, notrack, segment, addr32, rex.*) has the operands that follow its real mnemonic", "forms outside the statement's list (segment overrides, *, masks, %st(n), vector registers, two-component memory) are UNSPEC", "objdump 2.40 as input source for the real routes"]
 FLOORS = {"route=synthetic": 0.3, "route=encoded": 0.2, "shape=k(a,b,c)": 0.05, "shape=(a,b,c)": 0.03, "shape=k(,b,c)": 0.03, "shape=k(a)": 0.05, "shape=(a)": 0.03, "shape=imm": 0.05, "shape=target": 0.03}
 MN = ["mov", "add", "lea", "cmp", "push", "call", "jmp", "imul", "test", "nop", "ret", "shl"]
 ALLREG = GPR64 + GPR32 + GPR16 + GPR8
@@ -67,6 +67,8 @@ def cases(draw):
                 insts.append([m, [["target", t + ann]]])
                 continue
             n = draw(st.sampled_from([0, 1, 2, 2, 3]))
+            if draw(st.integers(0, 9)) == 0:
+                m = draw(st.sampled_from(["lock", "rep", "repz", "repnz", "bnd", "notrack", "cs", "fs", "addr32", "lock rep"])) + " " + m
             insts.append([m, [list(draw(syn_operand())) for _ in range(n)]])
         return {"route": route, "insts": insts, "base": draw(st.sampled_from([0, 0x401000, 0xadd0]))}
     if route == "encoded":
@@ -91,6 +93,13 @@ def strategy(tier):
     return cases()
 
 
+PREFIXES = {"lock", "rep", "repz", "repe", "repnz", "repne", "bnd", "notrack", "addr32", "addr16", "data32", "cs", "ds", "es", "fs", "gs", "ss", "xacquire", "xrelease"}
+
+
+def is_prefix(tok):
+    return tok in PREFIXES or tok.startswith("rex")
+
+
 def check_line(ev, addr, text, record, counts):
     """One instruction line: expected operands by the reference normaliser vs the stream record and parse_line."""
     text = text.replace("data16 ", "")
@@ -99,6 +108,10 @@ def check_line(ev, addr, text, record, counts):
     if not toks:
         return
     opstr = toks[1] if len(toks) > 1 else ""
+    if is_prefix(toks[0]) and len(toks) > 1:
+        # objdump prints prefixes as words of their own in front of the mnemonic: the instruction's operands are what follows
+        # the real mnemonic, and the statement promises them (count, order, normal form) like those of any other instruction
+        return check_prefixed_line(ev, text, toks, record, counts)
     att = split_operands(opstr) if opstr else []
     want = [normal_form(o) for o in att]
     fields = record.split("::", 1)[1].split(",") if "::" in record else []
@@ -121,6 +134,32 @@ def check_line(ev, addr, text, record, counts):
             ev.dev("operand-normal-form", line=text, position=q, att=att[q], expected=w, observed=g)
             return False
     return inside
+
+
+def check_prefixed_line(ev, text, toks, record, counts):
+    k = 0
+    while k < len(toks) - 1 and is_prefix(toks[k]):
+        k += 1
+    real_mnemonic = toks[k]
+    opstr = toks[k + 1] if len(toks) > k + 1 else ""
+    att = split_operands(opstr) if opstr else []
+    want = [normal_form(o) for o in att]
+    fields = record.split("::", 1)[1].split(",") if "::" in record else []
+    got = fields[1:-1] if len(fields) >= 3 else None
+    if got is None:
+        ev.dev("record-malformed", line=text, record=record)
+        return False
+    if got == [""]:
+        got = []
+    counts["prefixed"] = counts.get("prefixed", 0) + 1
+    if not all(w is not None for w in want):
+        return None  # operands outside the listed forms: nothing promised
+    if got == want:
+        return True
+    # known finding F15 has exactly this shape: the prefix is taken for the mnemonic, the next word for the only operand
+    ev.dev("prefixed-instruction-loses-operands", line=text, prefix=toks[0], following_word=toks[1], mnemonic_in_stream=fields[0] if fields else None,
+           operands_in_stream=got, expected_operands=want)
+    return None  # keep checking the other lines of the listing
 
 
 def evaluate(case):
@@ -189,6 +228,8 @@ def evaluate(case):
                 keys.append(t.split("#")[0].split("<")[0].strip())
         elif res is None:
             ev.tags.append("unspec") if "unspec" not in ev.tags else None
+    if counts.get("prefixed"):
+        ev.tags.append("has-prefixed-instruction")
     ev.nontrivial = bool(keys)
     ev.keys = keys
     if "synthetic" == route:
